@@ -29,7 +29,7 @@ var c20msgs = []error{errors.New("m1"), errors.New("m2"), fmt.Errorf("m%d", 1), 
 var c20args = [][]int{{0}, {1}, {2}, {3}, {0, 1}, {1, 0}, {0, 2}, {3, 1}, {1, 3, 1}, {5}, {6}, {0, 1, 4}}
 
 type c20op struct {
-	K       string // adde addw merge mergee mergew inc reborrow mergenil merge2
+	K       string // adde addw merge mergee mergew inc reborrow mergenil merge2 mergee2 mergew2
 	A, B, C int
 }
 
@@ -91,7 +91,7 @@ func (m *c20model) enabled(o c20op) bool {
 			return false // merging a pooled result into itself redeems a live object: caller misuse
 		}
 		return true
-	case "merge2":
+	case "merge2", "mergee2", "mergew2":
 		if !m[o.A].Live || !m[o.B].Live || !m[o.C].Live || o.A == o.B || o.A == o.C {
 			return false
 		}
@@ -141,6 +141,13 @@ func (m *c20model) apply(o c20op) {
 		if m[o.C].Live {
 			mergeInto(o.A, o.C, "merge")
 		}
+	case "mergee2", "mergew2":
+		// several operands with nil ones among them: a nil operand contributes nothing, the others
+		// are merged in order
+		mergeInto(o.A, o.B, o.K[:6])
+		if m[o.C].Live {
+			mergeInto(o.A, o.C, o.K[:6])
+		}
 	case "mergenil":
 	case "reborrow":
 		m[o.A] = c20slot{Live: true, Pooled: true}
@@ -176,6 +183,10 @@ func (w *c20world) apply(o c20op) {
 		w.r[o.A].MergeAsWarnings(w.r[o.B])
 	case "merge2":
 		w.r[o.A].Merge(w.r[o.B], w.r[o.C])
+	case "mergee2":
+		w.r[o.A].MergeAsErrors(w.r[o.B], nil, w.r[o.C])
+	case "mergew2":
+		w.r[o.A].MergeAsWarnings(nil, w.r[o.B], w.r[o.C])
 	case "mergenil":
 		switch o.B {
 		case 0:
@@ -299,7 +310,7 @@ func c20ops() []c20op {
 				ops = append(ops, c20op{"mergenil", b, a, 0}, c20op{"mergenil", b, 1, 0}, c20op{"mergenil", b, 2, 0})
 			}
 			for cc := 0; cc < 3; cc++ {
-				ops = append(ops, c20op{"merge2", a, b, cc})
+				ops = append(ops, c20op{"merge2", a, b, cc}, c20op{"mergee2", a, b, cc}, c20op{"mergew2", a, b, cc})
 			}
 		}
 	}
